@@ -50,9 +50,9 @@ func checks() map[string]CheckDef {
 		Runs: []HRun{
 			{Pkg: "internal/zzverif/c04", Func: "HarnessByHash", Quick: [][]int64{{3}}, Thorough: [][]int64{{5}}, Labels: []string{"C04/by-hash-found-iff-stored", "C04/by-hash-returns-that-header", "C04/absent-is-404", "C04/reads-never-modify"}},
 			{Pkg: "internal/zzverif/c04", Func: "HarnessTips", Quick: [][]int64{{3}}, Thorough: [][]int64{{4}, {5}}, Labels: []string{"C04/tips-exact-set", "C04/tip-longest", "C04/tips-only-stored"}},
-			{Pkg: "internal/zzverif/c04", Func: "HarnessAncestors", Quick: [][]int64{{3}}, Thorough: [][]int64{{4}, {5}}, Labels: []string{"C04/ancestors-error-iff-not-descendant", "C04/ancestors-exact-path"}},
+			{Pkg: "internal/zzverif/c04", Func: "HarnessAncestors", Quick: [][]int64{{3}, {4}}, Thorough: [][]int64{{5}}, Labels: []string{"C04/ancestors-error-iff-not-descendant", "C04/ancestors-exact-path"}},
 			{Pkg: "internal/zzverif/c04", Func: "HarnessByHeight", Quick: [][]int64{{3}, {4}}, Thorough: [][]int64{{5}, {6}}, Labels: []string{"C04/by-height-answers", "C04/by-height-only-stored", "C04/by-height-only-from-window", "C04/by-height-no-duplicates", "C04/by-height-all-longest-in-window"}},
-			{Pkg: "internal/zzverif/c04", Func: "HarnessCommonAncestor", Quick: [][]int64{{3, 1}, {3, 2}}, Thorough: [][]int64{{4, 2}, {3, 3}}, Labels: []string{"C04/common-ancestor-unknown-hash-is-an-error", "C04/common-ancestor-found-iff-one-exists", "C04/common-ancestor-is-the-highest-common-one"}},
+			{Pkg: "internal/zzverif/c04", Func: "HarnessCommonAncestor", Quick: [][]int64{{3, 1}, {3, 2}, {4, 2}}, Thorough: [][]int64{{4, 2}, {3, 3}}, Labels: []string{"C04/common-ancestor-unknown-hash-is-an-error", "C04/common-ancestor-found-iff-one-exists", "C04/common-ancestor-is-the-highest-common-one"}},
 			{Pkg: "internal/zzverif/c04", Func: "HarnessFreshAnswers", Quick: [][]int64{{1, 0}, {1, 1}, {1, 2}, {1, 3}, {1, 4}, {1, 5}, {1, 6}, {1, 7}, {1, 8}, {2, 5}, {2, 7}}, Thorough: [][]int64{{2, 0}, {2, 1}, {2, 2}, {2, 3}, {2, 4}, {2, 5}, {2, 6}, {2, 7}, {2, 8}, {3, 5}, {3, 7}},
 				Labels: []string{"C04/read-routes-registered", "C04/answer-after-ingestion-equals-a-fresh-process"}},
 			{Pkg: "transports/http/endpoints/api/headers", Func: "HarnessMapHeader", Quick: [][]int64{{2}}, Thorough: [][]int64{{3}}, Labels: []string{"C04/header-response-carries-the-stored-fields", "C04/state-response-carries-the-stored-fields", "C04/list-response-keeps-length-and-order"}},
